@@ -1,81 +1,113 @@
 (** C13 / C10 / C09 (page-id allocation) — a page id handed out by NewPage is never an id that is still in
-    use, the ids in use are pairwise different, the reusable list has no duplicates and holds no id in use — in
-    every state any sequence of operations can reach, clean and crash restarts included.
+    use, the ids in use are pairwise different, the reusable list has no duplicates, holds no id in use and only
+    ids below the allocator's next id — in every state any sequence of operations can reach, clean and crash
+    restarts included.
 
     The model ([Model/PageAlloc.v]) follows BufferPoolManager.NewPage / DeallocatePage, the cache-out of flagged
     pages, DiskManagerImpl.AllocatePage and its initialisation from the file size, the DEALLOCATE_PAGE / REUSE_PAGE
-    / NewTablePage records, Redo's rebuilding of the list and the start-up sequence of NewSamehadaDB.  Page
-    deallocation is not transactional in the engine (no undo, same treatment for committed and aborted callers),
-    so transactions do not appear.  [pa_reach fx st]: [st] is reached from the empty database by operations that
-    each satisfy
+    / NewTablePage records, Redo's rebuilding of the list — including, for [pa_now], the repair d99b876 at the end
+    of Redo ([for AllocatePage() < largest rebuilt id at or beyond the end of the file {}]) — and the start-up
+    sequence of NewSamehadaDB.  Page deallocation is not transactional in the engine (no undo, same treatment for
+    committed and aborted callers), so transactions do not appear.
+
+    [pa_reach_now st]: [st] is reached from the empty database by operations of the CURRENT engine ([pa_now]) that
+    each satisfy [pa_guard_now] =
       [pa_client_ok]  the callers' contract and legal inputs (an owner gives back a page it owns; the log half of
                       a deallocation follows its memory half; no allocation takes an id whose DEALLOCATE_PAGE
                       record is still to be appended),
-      [pa_image_ok]   at a restart: every id owned after it, and every id of the rebuilt reusable list, lies below
-                      the point the allocator restarts from (file size + 1, raised by NewTablePage redo).
-    [fx = false] is the engine as it is; [fx = true] a start-up that also raises the allocator above the rebuilt
-    list (a repair the engine does not have), for which the second half of [pa_image_ok] is not needed.
+      [pa_owned_ok]   at a restart: every id OWNED after it lies below the point the allocator restarts from
+                      (file size + 1, raised by the NewTablePage redo) — what FlushAllDirtyPages, FlushPage at
+                      creation and the NewTablePage redo provide ([owned_image_established]).
+    Nothing is assumed about the ids of the rebuilt REUSABLE list any more: the start-up puts them below the
+    allocator's next id itself ([restart_establishes_reusable_below_next]).
 
-    FALSE for the engine without [pa_image_ok] ([restart_reuse_beyond_file_refuted]; reproduced on the engine:
-    hash-join temporary pages, clean shutdown, restart) and without the "no overtaking" clause of [pa_client_ok]
-    ([dealloc_log_race_refuted]; needs two threads; reproduced on the engine with goroutines looping NewPage /
-    UnpinPage / DeallocatePage(id,true): after a crash restart the rebuilt list holds ids the threads still own).
-    Statements only. *)
+    PRE-FIX code ([pa_prefix], the start-up before d99b876): [restart_reuse_beyond_file_refuted] is the
+    machine-checked witness of the defect that was repaired (hash-join temporary pages, clean shutdown, restart:
+    NewPage returned 2, 3, 3; reproduced on the pre-fix engine); [prefix_invariants_partial] is what held for it
+    under the additional hypothesis.
+    STILL FALSE for the current engine without the "no overtaking" clause of [pa_client_ok]
+    ([dealloc_log_race_refuted]: two threads; reproduced on the engine with goroutines looping NewPage / UnpinPage /
+    DeallocatePage(id,true): after a crash restart the rebuilt list holds ids the threads still own; finding
+    F-ALLOC-LOG-RACE).  Statements only. *)
 From Coq Require Import List NArith Bool.
 From SDB Require Import Base.Assoc Model.PageAlloc Model.Catalog Proofs.PageAllocProofs.
 Import ListNotations.
 Open Scope N_scope.
 
+(** The hypotheses of the current engine are exactly the callers' contract and the owned half of the image
+    condition ([pa_guard_all pa_now] is the guard [pa_jrun] uses). *)
+Theorem guard_now_spec : forall st o, pa_guard_all pa_now st o = pa_guard_now st o.
+Proof. exact guard_now_spec_lemma. Qed.
+Print Assumptions guard_now_spec.
+
 (** (a) The id NewPage returns (for a plain page or for a new heap page) is not in use by any owner, is not a
     released page still resident with the deallocation flag, and is not in the middle of a deallocation; after the
     call it is in use. *)
-Theorem new_page_fresh : forall fx st o st' p, pa_reach fx st -> (o = ONew \/ o = ONewHeap) ->
-  pa_client_ok st o = true -> pa_step fx st o = (st', PONew p) ->
+Theorem new_page_fresh : forall st o st' p, pa_reach_now st -> (o = ONew \/ o = ONewHeap) ->
+  pa_client_ok st o = true -> pa_step pa_now st o = (st', PONew p) ->
   ~ In p (pa_inuse st) /\ ~ In p (pa_flagged st) /\ ~ In p (pa_pending st) /\ pa_inuse st' = p :: pa_inuse st.
-Proof. exact new_page_fresh_lemma. Qed.
+Proof. exact new_page_fresh_now_lemma. Qed.
 Print Assumptions new_page_fresh.
 
 (** (b) The ids in use are pairwise different. *)
-Theorem inuse_ids_distinct : forall fx st, pa_reach fx st -> NoDup (pa_inuse st).
-Proof. exact inuse_distinct_lemma. Qed.
+Theorem inuse_ids_distinct : forall st, pa_reach_now st -> NoDup (pa_inuse st).
+Proof. exact inuse_distinct_now_lemma. Qed.
 Print Assumptions inuse_ids_distinct.
 
-(** (c) The reusable list has no duplicates, holds no id in use and no id of a flagged resident page. *)
-Theorem reusable_list_well_formed : forall fx st, pa_reach fx st ->
+(** (c) The reusable list has no duplicates, holds no id in use and no id of a flagged resident page; every id of
+    the list and every id in use is below the allocator's next id. *)
+Theorem reusable_list_well_formed : forall st, pa_reach_now st ->
   NoDup (pa_reusable st) /\ (forall p, In p (pa_reusable st) -> ~ In p (pa_inuse st))
-  /\ (forall p, In p (pa_reusable st) -> ~ In p (pa_flagged st)).
-Proof. exact reusable_ok_lemma. Qed.
+  /\ (forall p, In p (pa_reusable st) -> ~ In p (pa_flagged st))
+  /\ (forall p, In p (pa_reusable st) -> p < pa_next st)
+  /\ (forall p, In p (pa_inuse st) -> p < pa_next st).
+Proof. exact reusable_ok_now_lemma. Qed.
 Print Assumptions reusable_list_well_formed.
 
 (** The executable checkers the correspondence run evaluates say the same. *)
-Theorem allocation_checkers_hold : forall fx st, pa_reach fx st ->
+Theorem allocation_checkers_hold : forall st, pa_reach_now st ->
   (match pa_reusable st with p :: _ => negb (memN p (pa_pending st)) | [] => true end = true -> pa_new_fresh st = true)
   /\ pa_inuse_nodup st = true /\ pa_reusable_ok st = true.
-Proof. exact checkers_lemma. Qed.
+Proof. exact checkers_now_lemma. Qed.
 Print Assumptions allocation_checkers_hold.
 
-(** (d) Restarts are operations of [pa_reach]: (a)-(c) hold after any number of them.  In addition a clean
+(** (d) What used to be a hypothesis is established by the start-up itself — from ANY state, with ANY durable
+    prefix of the log, survivors and list order: every id of the rebuilt reusable list is below the allocator's
+    next id, and the list has no duplicates. *)
+Theorem restart_establishes_reusable_below_next : forall st kept surv order p,
+  In p (pa_reusable (pa_restart pa_now st kept surv order)) -> p < pa_next (pa_restart pa_now st kept surv order).
+Proof. exact restart_reusable_below_next_lemma. Qed.
+Print Assumptions restart_establishes_reusable_below_next.
+
+Theorem restart_rebuilds_duplicate_free_list : forall fx st kept surv order,
+  NoDup (pa_reusable (pa_restart fx st kept surv order)).
+Proof. exact restart_reusable_nodup_lemma. Qed.
+Print Assumptions restart_rebuilds_duplicate_free_list.
+
+(** Restarts are operations of [pa_reach_now]: (a)-(c) hold after any number of them.  In addition a clean
     shutdown and restart changes nothing for the owners (C09) and forgets no reusable id ... *)
-Theorem clean_restart_keeps_owners_and_reusable_ids : forall fx st order st', pa_reach fx st ->
-  pa_image_ok fx st (OCleanRestart order) = true ->
-  st' = fst (pa_step fx st (OCleanRestart order)) ->
-  pa_reach fx st' /\ pa_inuse st' = pa_inuse st /\
+Theorem clean_restart_keeps_owners_and_reusable_ids : forall st order st', pa_reach_now st ->
+  pa_owned_ok st (OCleanRestart order) = true ->
+  st' = fst (pa_step pa_now st (OCleanRestart order)) ->
+  pa_reach_now st' /\ pa_inuse st' = pa_inuse st /\
   (forall p, In p (pa_reusable st) -> In p (pa_pending st) \/ In p (pa_reusable st')) /\
-  (forall p, In p (pa_reusable st') -> ~ In p (pa_inuse st')).
-Proof. exact clean_restart_lemma. Qed.
+  (forall p, In p (pa_reusable st') -> ~ In p (pa_inuse st')) /\
+  (forall p, In p (pa_reusable st') -> p < pa_next st').
+Proof. exact clean_restart_now_lemma. Qed.
 Print Assumptions clean_restart_keeps_owners_and_reusable_ids.
 
 (** ... and after a crash exactly the surviving owners own their ids, none of which is reusable. *)
-Theorem crash_restart_keeps_survivors : forall fx st kept surv order st', pa_reach fx st ->
+Theorem crash_restart_keeps_survivors : forall st kept surv order st', pa_reach_now st ->
   pa_client_ok st (OCrashRestart kept surv order) = true ->
-  pa_image_ok fx st (OCrashRestart kept surv order) = true ->
-  st' = fst (pa_step fx st (OCrashRestart kept surv order)) ->
-  pa_reach fx st' /\ (forall p, In p (pa_inuse st') <-> In p (pa_inuse st) /\ In p surv) /\
-  (forall p, In p (pa_reusable st') -> ~ In p (pa_inuse st')).
-Proof. exact crash_restart_lemma. Qed.
+  pa_owned_ok st (OCrashRestart kept surv order) = true ->
+  st' = fst (pa_step pa_now st (OCrashRestart kept surv order)) ->
+  pa_reach_now st' /\ (forall p, In p (pa_inuse st') <-> In p (pa_inuse st) /\ In p surv) /\
+  (forall p, In p (pa_reusable st') -> ~ In p (pa_inuse st')) /\
+  (forall p, In p (pa_reusable st') -> p < pa_next st').
+Proof. exact crash_restart_now_lemma. Qed.
 Print Assumptions crash_restart_keeps_survivors.
 
-(** The owned half of the image hypothesis is what the engine provides for owned pages: the page is in the db
+(** The owned half of the image condition is what the engine provides for owned pages: the page is in the db
     file (FlushAllDirtyPages at shutdown; FlushPage in NewTableHeap and the catalog) or its NewTablePage record is
     in the durable part of the log (Redo takes the id from the allocator). *)
 Theorem owned_image_established : forall st kept surv,
@@ -85,31 +117,46 @@ Theorem owned_image_established : forall st kept surv,
 Proof. exact owned_image_lemma. Qed.
 Print Assumptions owned_image_established.
 
-(** For the ids of the rebuilt REUSABLE list the engine provides nothing, and without it (a)-(c) are false:
-    callers that keep their contract, one thread, a clean shutdown and restart — NewPage returns 2, 3, 3. *)
+(** PRE-FIX code (start-up before d99b876, [pa_prefix]).  Callers that keep their contract, one thread, a clean
+    shutdown and restart — NewPage returns 2, 3, 3: (a) and (b) were false. *)
 Theorem restart_reuse_beyond_file_refuted :
-  exists ops st outs, pa_run_g false pa_client_ok pa_init ops = Some (st, outs) /\
+  exists ops st outs, pa_run_g pa_prefix pa_client_ok pa_init ops = Some (st, outs) /\
     ~ NoDup (pa_inuse st) /\ pa_inuse_nodup st = false /\
     nth 11 outs POBad = PONew 2 /\ nth 12 outs POBad = PONew 3 /\ nth 13 outs POBad = PONew 3.
 Proof. exact restart_reuse_refuted_lemma. Qed.
 Print Assumptions restart_reuse_beyond_file_refuted.
 
-(** In that run the restart is the only step outside the hypotheses, and only in the reusable half. *)
+(** PRE-FIX: in that run the restart is the only step outside the (then) hypotheses, and only in the reusable half. *)
 Theorem restart_reuse_witness_breaks_only_the_reusable_half :
-  forall st outs, pa_run_g false pa_client_ok pa_init (firstn 10 witness_beyond_file) = Some (st, outs) ->
+  forall st outs, pa_run_g pa_prefix pa_client_ok pa_init (firstn 10 witness_beyond_file) = Some (st, outs) ->
   pa_image_owned_ok st (length (pa_log st)) (pa_inuse st) = true /\
   pa_image_reusable_ok st (length (pa_log st)) = false.
 Proof. exact restart_reuse_witness_guard. Qed.
 Print Assumptions restart_reuse_witness_breaks_only_the_reusable_half.
 
-(** An allocation that overtakes the log half of a deallocation (two threads) breaks (b) after the next restart,
-    with every other hypothesis in place, for the engine as it is and for the repaired start-up alike. *)
+(** PRE-FIX, [_partial] form: with the reusable half of the image condition as an additional hypothesis
+    ([pa_reach pa_prefix] carries [pa_image_ok pa_prefix]) the statements held. *)
+Theorem prefix_invariants_partial : forall st, pa_reach pa_prefix st ->
+  NoDup (pa_inuse st) /\ NoDup (pa_reusable st) /\ (forall p, In p (pa_reusable st) -> ~ In p (pa_inuse st)).
+Proof. exact prefix_partial_lemma. Qed.
+Print Assumptions prefix_invariants_partial.
+
+(** CURRENT engine on the same run: every step is inside [pa_guard_now] and NewPage returns 2, 3, 4. *)
+Theorem restart_reuse_witness_repaired :
+  exists st outs, pa_run_g pa_now pa_guard_now pa_init witness_beyond_file = Some (st, outs) /\
+    nth 11 outs POBad = PONew 2 /\ nth 12 outs POBad = PONew 3 /\ nth 13 outs POBad = PONew 4 /\
+    pa_inuse st = [4; 3; 2; 1; 0].
+Proof. exact witness_now_lemma. Qed.
+Print Assumptions restart_reuse_witness_repaired.
+
+(** CURRENT engine (and pre-fix alike): an allocation that overtakes the log half of a deallocation (two threads)
+    breaks (b) after the next restart, with every other hypothesis in place.  Finding F-ALLOC-LOG-RACE. *)
 Theorem dealloc_log_race_refuted :
   exists ops st outs,
-    pa_run_g true (fun st o => pa_client_ok_norace st o && pa_image_ok true st o) pa_init ops = Some (st, outs) /\
-    pa_run_g false (fun st o => pa_client_ok_norace st o && pa_image_ok false st o) pa_init ops = Some (st, outs) /\
+    pa_run_g pa_now (fun st o => pa_client_ok_norace st o && pa_owned_ok st o) pa_init ops = Some (st, outs) /\
+    pa_run_g pa_prefix (fun st o => pa_client_ok_norace st o && pa_image_ok pa_prefix st o) pa_init ops = Some (st, outs) /\
     ~ NoDup (pa_inuse st) /\ nth 6 outs POBad = PONew 1 /\ nth 9 outs POBad = PONew 1.
-Proof. exact log_race_refuted_lemma. Qed.
+Proof. exact log_race_now_lemma. Qed.
 Print Assumptions dealloc_log_race_refuted.
 
 (** Outside the callers' contract: a page given back twice is on the list twice. *)
@@ -118,39 +165,37 @@ Theorem double_release_refuted :
 Proof. exact double_release_refuted_lemma. Qed.
 Print Assumptions double_release_refuted.
 
-(** C10: the first pages CREATE TABLE obtains from the allocator — with any other guarded operations in between,
-    none of which gives such a page back — are pairwise different ... *)
-Theorem table_first_pages_distinct : forall fx ops st tp, pa_jrun fx pa_init [] ops = Some (st, tp) -> NoDup tp.
-Proof. exact first_pages_distinct_lemma. Qed.
+(** C10: the first pages CREATE TABLE obtains from the allocator of the current engine — with any other operations
+    inside [pa_guard_now] in between, none of which gives such a page back — are pairwise different ... *)
+Theorem table_first_pages_distinct : forall ops st tp, pa_jrun pa_now pa_init [] ops = Some (st, tp) -> NoDup tp.
+Proof. exact first_pages_now_lemma. Qed.
 Print Assumptions table_first_pages_distinct.
 
 (** ... which is the hypothesis of [storage_disjoint] (Props/C10.v): two tables never share their first page. *)
-Theorem storage_disjoint_discharged : forall fx jops st fp cops,
-  pa_jrun fx pa_init [] jops = Some (st, fp :: pages_of_ops cops) ->
+Theorem storage_disjoint_discharged : forall jops st fp cops,
+  pa_jrun pa_now pa_init [] jops = Some (st, fp :: pages_of_ops cops) ->
   NoDup (map snd (tabs (crun1 reload cops (bootstrap fp)))).
-Proof. exact storage_disjoint_discharged_lemma. Qed.
+Proof. exact storage_disjoint_now_lemma. Qed.
 Print Assumptions storage_disjoint_discharged.
 
-(** Non-vacuity: hash-join style and skip-list style deallocations, a cache-out of the flagged page, reuse, a heap
-    page whose record is durable but whose page is not in the file, a crash restart; every step guarded. *)
+(** Non-vacuity (current engine): hash-join style and skip-list style deallocations, a cache-out of the flagged
+    page, reuse, temporary pages given back above the end of the file, a heap page whose record is durable but whose
+    page is not in the file, a crash restart (the NewTablePage redo puts the allocator at 5, the repair moves it past
+    the beyond-file id 5 of the rebuilt list), allocation afterwards; every step inside [pa_guard_now]. *)
 Example c13alloc_nonvacuous :
   exists st outs,
-    pa_run_g false (pa_guard_all false) pa_init
+    pa_run_g pa_now pa_guard_now pa_init
       [ONew; OWrote 0; ONew; OWrote 1; ONew; OWrote 2; ORelease 1 MNow; OLogDealloc 1; ORelease 2 MFlag; OLogDealloc 2;
-       OEvict 2; ONew; ONewHeap; ONewHeap; OFlushLog; OCrashRestart 6 [0; 1; 3] []; ONew; OProbe] = Some (st, outs) /\
+       OEvict 2; ONew; ONewHeap; ONewHeap; OFlushLog; ONew; ONew; ORelease 5 MNow; OLogDealloc 5;
+       OCrashRestart 7 [0; 1; 3] [5]; ONew; ONew; OProbe] = Some (st, outs) /\
     nth 11 outs POBad = PONew 1 /\ nth 12 outs POBad = PONew 2 /\ nth 13 outs POBad = PONew 3 /\
-    nth 16 outs POBad = PONew 5 /\ pa_inuse st = [5; 3; 1; 0] /\ pa_reusable st = [].
+    nth 20 outs POBad = PONew 5 /\ nth 21 outs POBad = PONew 6 /\ nth 22 outs POBad = PONew 7 /\
+    pa_inuse st = [6; 5; 3; 1; 0] /\ pa_reusable st = [].
 Proof. vm_compute. do 2 eexists. repeat split. Qed.
-
-(** The repaired start-up on the witness: no id is handed out twice. *)
-Example c13alloc_repaired_startup :
-  exists st outs, pa_run_g true (pa_guard_all true) pa_init witness_beyond_file = Some (st, outs) /\
-    pa_inuse st = [4; 3; 2; 1; 0].
-Proof. vm_compute. do 2 eexists. split; reflexivity. Qed.
 
 (** C10: three tables created around a restart. *)
 Example c13alloc_tables :
-  exists st, pa_jrun false pa_init []
+  exists st, pa_jrun pa_now pa_init []
     [JCreate; JOther (OWrote 0); JCreate; JOther (OWrote 1); JOther ONew; JOther (ORelease 2 MNow);
-     JOther (OLogDealloc 2); JOther (OWrote 2); JOther (OCleanRestart [2]); JCreate] = Some (st, [0; 1; 2]).
+     JOther (OLogDealloc 2); JOther (OCleanRestart [2]); JCreate] = Some (st, [0; 1; 2]).
 Proof. vm_compute. eexists. reflexivity. Qed.
